@@ -334,7 +334,8 @@ class CSSSerializer:
         if self.prefs.defaultAtKeyword:
             return rule.atkeyword  # default
         else:
-            return rule._keyword
+            # only rules parsed from text know the literal keyword
+            return getattr(rule, '_keyword', None) or rule.atkeyword
 
     def _indentblock(self, text, level):
         """
